@@ -269,7 +269,9 @@ pub fn c02(t: &Table, o: &Outcome, interrupted: bool, exempt: Option<&Solution>)
 
 pub fn body<D: Dd, C: Cache<State = St> + Default>(c: &SolveCase) {
     let t = Table::new(&c.shape, c.rub.clone(), c.sym_init);
-    t.mon.lock().unwrap().expect_impacted = D::POOLED;
+    // (state-wise irrelevance: a merged state may be irrelevant for the variable of the layer it was merged in, and the
+    // property does not forbid expanding it there: the clause is only meaningful for member-wise irrelevance)
+    t.mon.lock().unwrap().expect_impacted = D::POOLED && t.sh.skip.is_none();
     t.mon.lock().unwrap().check_protocol = c.props.is_empty() || c.props.iter().any(|p| p == "C12");
     let all = enumerate(&t, 0, t.sh.root);
     let opt = max_of(all.iter().map(|p| t.init.plus(p.value)));
